@@ -16,6 +16,8 @@ pub struct Profile {
     pub observer: bool,
     /// number of objects (each with two services) created up front by the first connections
     pub setup: usize,
+    /// probability (x/256) that the next step is a concurrent batch of 2-5 requests
+    pub batch: u8,
     pub max_ops: usize,
     pub nontrivial: fn(&BTreeSet<&'static str>, &Stats) -> bool,
 }
@@ -52,7 +54,7 @@ pub fn run_history(p: &'static Profile, tape: &[u8]) -> Outcome {
         let mut t0 = Tape::new(&tape);
         let det = t0.u32() as u64;
         let tape2 = tape.clone();
-        vcommon::with_det_seed(det, STACK, move || history(p, &tape2))
+        vcommon::with_det_seed(det, STACK, move || history(p, &tape2).0)
     };
     match r {
         Ok(o) => o,
@@ -63,7 +65,7 @@ pub fn run_history(p: &'static Profile, tape: &[u8]) -> Outcome {
     }
 }
 
-fn history(p: &'static Profile, tape: &[u8]) -> Outcome {
+fn history(p: &'static Profile, tape: &[u8]) -> (Outcome, String) {
     let mut t = Tape::new(tape);
     let (_det, sched, policy, conns) = header(&mut t);
     let mut w = World::new(sched, policy);
@@ -72,7 +74,10 @@ fn history(p: &'static Profile, tape: &[u8]) -> Outcome {
         ($e:expr) => {
             match $e {
                 Ok(v) => v,
-                Err(f) => return f.outcome(&w.history),
+                Err(f) => {
+                    let text = w.history.join("\n");
+                    return (f.outcome(&w.history), text);
+                }
             }
         };
     }
@@ -93,6 +98,57 @@ fn history(p: &'static Profile, tape: &[u8]) -> Outcome {
     tryf!(setup(p, &mut w));
     let mut ops = 0;
     while !t.exhausted() && ops < p.max_ops {
+        if p.batch > 0 && t.chance(p.batch) {
+            // concurrent batch
+            let k = t.range(2, 5);
+            let mut batch: Vec<(C, Option<Message>)> = vec![];
+            let mut hung: BTreeSet<C> = BTreeSet::new();
+            for _ in 0..k {
+                match next_action(&mut t, &w, p.weights) {
+                    Some(Action::Inject(c, m)) if !hung.contains(&c) => batch.push((c, Some(m))),
+                    // a connection that hangs up contributes nothing else to the batch: replies to its
+                    // own earlier requests could not be observed any more
+                    Some(Action::HangUp(c)) if !hung.contains(&c) && !batch.iter().any(|(x, _)| *x == c) => {
+                        hung.insert(c);
+                        batch.push((c, None));
+                    }
+                    _ => {}
+                }
+            }
+            ops += batch.len().max(1);
+            // Requests whose broker-chosen ids could otherwise be attributed to either of two
+            // identical requests of the batch are made distinguishable (unique serials, unique
+            // call payloads); identical concurrent requests are indistinguishable black-box.
+            for (i, (_, m)) in batch.iter_mut().enumerate() {
+                let s = 1000 + i as u32;
+                let nonce = || aldrin_core::SerializedValue::serialize(0xC0FFEE00u64 + i as u64).unwrap();
+                match m {
+                    Some(Message::CreateObject(x)) => x.serial = s,
+                    Some(Message::CreateService(x)) => x.serial = s,
+                    Some(Message::CreateService2(x)) => x.serial = s,
+                    Some(Message::CreateChannel(x)) => x.serial = s,
+                    Some(Message::CreateBusListener(x)) => x.serial = s,
+                    Some(Message::CallFunction(x)) => {
+                        x.serial = s;
+                        x.value = nonce();
+                    }
+                    Some(Message::CallFunction2(x)) => {
+                        x.serial = s;
+                        x.value = nonce();
+                    }
+                    _ => {}
+                }
+            }
+            if batch.len() >= 2 {
+                tryf!(w.inject_batch(batch));
+            } else if let Some((c, m)) = batch.pop() {
+                match m {
+                    Some(m) => tryf!(w.inject(c, m)),
+                    None => tryf!(w.hang_up(c)),
+                }
+            }
+            continue;
+        }
         let Some(a) = next_action(&mut t, &w, p.weights) else {
             ops += 1;
             continue;
@@ -140,12 +196,13 @@ fn history(p: &'static Profile, tape: &[u8]) -> Outcome {
         if p.id == "C05" {
             for (k, ch) in &w.model.chans {
                 if let (End::Claimed(_), End::Claimed(_)) = (ch.sender, ch.receiver) {
-                    if ch.announced == 0 && ch.granted > 0 {
-                        return Fail::new(
+                    if ch.announced <= 0 && ch.granted > 0 {
+                        let f = Fail::new(
                             "channel:credit-deadlock",
                             format!("channel {}: the receiver has granted {} more items but the sender has been announced none; nothing is in flight", k, ch.granted),
-                        )
-                        .outcome(&w.history);
+                        );
+                        let text = w.history.join("\n");
+                        return (f.outcome(&w.history), text);
                     }
                 }
             }
@@ -175,7 +232,8 @@ fn history(p: &'static Profile, tape: &[u8]) -> Outcome {
     if stats.max_overlap_subs >= 2 {
         classes.push("overlapping-subscribers>=2");
     }
-    Outcome::Pass(PassInfo { nontrivial, fp: fingerprint(&key), classes })
+    let text = w.history.join("\n");
+    (Outcome::Pass(PassInfo { nontrivial, fp: fingerprint(&key), classes }), text)
 }
 
 /// Deterministic preamble: the first connections create objects with two services each (through
@@ -200,43 +258,9 @@ fn setup(p: &'static Profile, w: &mut World) -> Result<(), Fail> {
 }
 
 pub fn render_history(p: &'static Profile, tape: &[u8]) -> String {
-    // replay the case against the real broker to list the concrete history
     let tape = tape.to_vec();
     let det = Tape::new(&tape).u32() as u64;
-    let r = vcommon::with_det_seed(det, STACK, move || {
-        let mut t = Tape::new(&tape);
-        let (_d, sched, policy, conns) = header(&mut t);
-        let mut w = World::new(sched, policy);
-        for (minor, legacy) in conns {
-            if w.connect(minor, legacy).is_err() {
-                return w.history.join("\n");
-            }
-        }
-        if setup(p, &mut w).is_err() {
-            return w.history.join("\n");
-        }
-        let mut ops = 0;
-        while !t.exhausted() && ops < p.max_ops {
-            ops += 1;
-            let Some(a) = next_action(&mut t, &w, p.weights) else { continue };
-            let r = match a {
-                Action::Connect(minor, legacy) => {
-                    if w.conns.len() < 7 {
-                        w.connect(minor, legacy).map(|_| ())
-                    } else {
-                        Ok(())
-                    }
-                }
-                Action::HangUp(c) => w.hang_up(c),
-                Action::Inject(c, m) => w.inject(c, m),
-            };
-            if r.is_err() {
-                break;
-            }
-        }
-        w.history.join("\n")
-    });
-    r.unwrap_or_else(|_| "<render panicked>".into())
+    vcommon::with_det_seed(det, STACK, move || history(p, &tape).1).unwrap_or_else(|_| "<render panicked>".into())
 }
 
 fn plan(quick: u32, t: Tier) -> Vec<ClassPlan> {
@@ -273,6 +297,7 @@ static P_C03: Profile = Profile {
     weights: W_C03,
     observer: true,
     setup: 0,
+    batch: 0,
     max_ops: 60,
     nontrivial: |n, _| n.contains("create-object:duplicate") as u8 + n.contains("foreign-access") as u8 + (n.contains("cascade:service-with-object") || n.contains("cascade:owner-disconnect")) as u8 >= 2,
 };
@@ -317,6 +342,7 @@ static P_C02: Profile = Profile {
     weights: W_C02,
     observer: false,
     setup: 2,
+    batch: 70,
     max_ops: 70,
     nontrivial: |n, s| {
         s.max_pending_calls >= 2
@@ -366,6 +392,7 @@ static P_C04: Profile = Profile {
     weights: W_C04,
     observer: false,
     setup: 2,
+    batch: 70,
     max_ops: 70,
     nontrivial: |n, s| s.max_overlap_subs >= 2 && (n.contains("unsubscribe-by-disconnect") || n.contains("transition:all:1->0") || n.contains("transition:all:0->1")),
 };
@@ -406,6 +433,7 @@ static P_C05: Profile = Profile {
     weights: W_C05,
     observer: false,
     setup: 0,
+    batch: 70,
     max_ops: 90,
     nontrivial: |n, s| (s.items_sent_max >= 5 && n.contains("capacity:added")) || n.contains("send:exceeds-capacity") || n.contains("capacity:overflow"),
 };
@@ -451,6 +479,7 @@ static P_C10: Profile = Profile {
     weights: W_C10,
     observer: false,
     setup: 1,
+    batch: 40,
     max_ops: 80,
     nontrivial: |n, s| n.contains("listener:start-current>=2") && (n.contains("filter:removed") || n.contains("filter:cleared")) && s.max_listeners_on_one_conn >= 2,
 };
